@@ -671,6 +671,41 @@ fn misc(thorough: bool) -> Gen {
         out.push(prog(vec![("f", fun(vec![v("f")], vec![]))], a_class(vec![v("f")], m0())));
         out.push(prog(vec![("s", svc(vec![("next", fun(vec![], vec![v("s")]))]))], a_class(vec![v("s")], m0())));
         out.push(prog(vec![("s", svc(vec![("next", fun(vec![], vec![v("s")]))]))], a_class(vec![v("s")], v("s"))));
+        // a named type (plain, recursive, mutually recursive) reached from the init args only through each kind of
+        // wrapper - in particular only from inside a function or service reference type
+        {
+            let ev = rec(vec![(nl("id"), nat()), (nl("note"), text())]);
+            let wrappers: Vec<(&str, Box<dyn Fn(PTy) -> PTy>)> = vec![
+                ("id", Box::new(|t| t)),
+                ("opt", Box::new(PTy::opt)),
+                ("vec", Box::new(PTy::vec)),
+                ("record", Box::new(|t| rec(vec![(nl("sink"), t)]))),
+                ("variant", Box::new(|t| var_(vec![(nl("some"), t), (nl("none"), null())]))),
+                ("func-arg", Box::new(|t| funm(vec![t], vec![], vec![Mode::Oneway]))),
+                ("func-ret", Box::new(|t| funm(vec![], vec![t], vec![Mode::Query]))),
+                ("service", Box::new(|t| svc(vec![("notify", fun(vec![t], vec![]))]))),
+                ("opt-func-ret", Box::new(|t| PTy::opt(funm(vec![], vec![t], vec![Mode::Query])))),
+                ("record-service", Box::new(|t| rec(vec![(nl("sink"), svc(vec![("notify", fun(vec![t.clone()], vec![t]))]))]))),
+            ];
+            let named: Vec<(Vec<(&str, PTy)>, &str)> = vec![
+                (vec![("Event", ev.clone())], "Event"),
+                (vec![("Node", list("Node"))], "Node"),
+                (vec![("A", rec(vec![(nl("b"), PTy::opt(v("B")))])), ("B", rec(vec![(nl("a"), PTy::opt(v("A")))]))], "A"),
+                (vec![("F", fun(vec![v("F")], vec![]))], "F"),
+                (vec![("Alias", v("Event")), ("Event", ev.clone())], "Alias"),
+            ];
+            for (_wn, w) in &wrappers {
+                for (defs, n) in &named {
+                    let arg = w(v(n));
+                    out.push(prog(defs.clone(), a_class(vec![arg.clone()], m0())));
+                    out.push(prog(defs.clone(), a_class(vec![arg.clone(), nat()], m0())));
+                    out.push(prog(defs.clone(), a_class(vec![nat(), arg.clone()], svc(vec![("m", fun(vec![nat()], vec![]))]))));
+                    // the same wrapper as a method argument of the service, the init args not mentioning the name
+                    out.push(prog(defs.clone(), a_class(vec![nat()], svc(vec![("m", fun(vec![arg.clone()], vec![arg.clone()]))]))));
+                    out.push(prog(defs.clone(), a_svc(vec![("m", fun(vec![arg.clone()], vec![]))])));
+                }
+            }
+        }
         // diamonds
         out.push(prog(
             vec![("d", rec(vec![(nl("b"), v("b")), (nl("c"), v("c"))])), ("b", PTy::opt(v("a"))), ("c", PTy::vec(v("a"))), ("a", nat())],
@@ -696,6 +731,10 @@ pub fn all(tier: Tier, alpha: &Alphabets) -> Vec<(&'static str, Gen)> {
     fams.push((
         "lib-plain",
         Box::new(|| progs::plain_programs(10_000_000).into_iter().map(|p| Case { prog: p, shorthand: false, family: "lib-plain" }).collect()),
+    ));
+    fams.push((
+        "lib-shapes",
+        Box::new(|| progs::shape_programs().into_iter().map(|p| Case { prog: p, shorthand: false, family: "lib-shapes" }).collect()),
     ));
     fams.push(("misc", misc(thorough)));
 
